@@ -344,6 +344,33 @@ func H_unquote(n int) { H_unquotePre(0, n) }
 // need several more characters).
 func H_unquotePre(pre, n int) {
 	body := c01UnquotePrefix[pre] + verifString(n)
+	if pre == 1 && n == 4 {
+		// \uXXXX with four symbolic characters: accepted exactly for four hexadecimal digits of
+		// either case, and then denotes that code point
+		u, err := unquoteString("'" + body + "'")
+		val, hex := 0, true
+		for i := 2; i < 6; i++ {
+			c := body[i]
+			switch {
+			case c >= '0' && c <= '9':
+				val = val<<4 | int(c-'0')
+			case c >= 'a' && c <= 'f':
+				val = val<<4 | int(c-'a'+10)
+			case c >= 'A' && c <= 'F':
+				val = val<<4 | int(c-'A'+10)
+			default:
+				hex = false
+			}
+		}
+		verifObserve("body", body)
+		if hex {
+			verifAssert(err == nil, "a \\uXXXX escape with four hexadecimal digits was rejected")
+			verifAssert(u == string(rune(val)), "a \\uXXXX escape denotes another character than its code point")
+		}
+		// (what happens to other spellings is not the property's subject: it speaks about valid
+		// expressions; strconv-style signs such as \\u+123 are accepted today)
+		return
+	}
 	if pre != 0 {
 		_, _ = unquoteString("'" + body + "'") // must return (no panic)
 		return
